@@ -162,8 +162,22 @@ impl Sx {
 use std::sync::OnceLock;
 static NAMES: OnceLock<Vec<&'static str>> = OnceLock::new();
 pub fn dim(n: usize) -> &'static str {
+    // Names are slices of leaked strings.  Deliberately, the names of n, 10n and 100n (e.g. "d1",
+    // "d10", "d100") are PREFIXES OF ONE ALLOCATION, so they start at the same address while
+    // being different names: a library that compared names by pointer instead of by content
+    // would confuse them.
     let names = NAMES.get_or_init(|| {
-        (0..256).map(|i| &*Box::leak(format!("d{i}").into_boxed_str())).collect()
+        let own: Vec<&'static str> = (0..256).map(|i| &*Box::leak(format!("d{i}").into_boxed_str())).collect();
+        (0..256usize)
+            .map(|i| {
+                let mut base = i;
+                while base != 0 && base * 10 < 256 {
+                    base *= 10;
+                }
+                let len = format!("d{i}").len();
+                &own[base][..len]
+            })
+            .collect()
     });
     names[n % 256]
 }
